@@ -5,4 +5,5 @@ CONSTANTS
   MaxRetry = 6
   BugEarlyIdle = FALSE
   BugLateDialLeak = FALSE
+  BugStrayDial = FALSE
 CHECK_DEADLOCK FALSE
